@@ -12,7 +12,49 @@ use std::io::{self, Cursor, Read, Seek, SeekFrom, Write};
 use std::sync::{Arc, Mutex};
 use std::time::{Duration, UNIX_EPOCH};
 
-pub type Cf = CompoundFile<Cursor<Vec<u8>>>;
+/// The backing store: a `Cursor` whose `after`-th next write can be made to fail once.
+pub struct Disk {
+    inner: Cursor<Vec<u8>>,
+    fail_in: std::sync::Arc<std::sync::atomic::AtomicI64>,
+}
+
+impl Disk {
+    pub fn new(bytes: Vec<u8>) -> (Disk, std::sync::Arc<std::sync::atomic::AtomicI64>) {
+        let f = std::sync::Arc::new(std::sync::atomic::AtomicI64::new(0));
+        (Disk { inner: Cursor::new(bytes), fail_in: f.clone() }, f)
+    }
+}
+
+impl Read for Disk {
+    fn read(&mut self, buf: &mut [u8]) -> io::Result<usize> {
+        self.inner.read(buf)
+    }
+}
+
+impl Seek for Disk {
+    fn seek(&mut self, pos: SeekFrom) -> io::Result<u64> {
+        self.inner.seek(pos)
+    }
+}
+
+impl Write for Disk {
+    fn write(&mut self, buf: &[u8]) -> io::Result<usize> {
+        use std::sync::atomic::Ordering;
+        let left = self.fail_in.load(Ordering::Relaxed);
+        if left > 0 {
+            self.fail_in.store(left - 1, Ordering::Relaxed);
+            if left == 1 {
+                return Err(io::Error::new(io::ErrorKind::Other, "injected write failure"));
+            }
+        }
+        self.inner.write(buf)
+    }
+    fn flush(&mut self) -> io::Result<()> {
+        self.inner.flush()
+    }
+}
+
+pub type Cf = CompoundFile<Disk>;
 
 /// Prefix of panics raised by the history oracles; the word after it is the signature.
 pub const ORACLE_PREFIX: &str = "C14-ORACLE ";
@@ -198,11 +240,12 @@ pub fn run_once(sc: &Scenario, image: &[u8], cfg_key: u64, sink: &SharedSink) {
     pin_clock();
     sink.lock().unwrap().executions += 1;
 
+    let (disk, fail_in) = Disk::new(image.to_vec());
     let mut cf: Cf = OpenOptions::new()
         .max_buffer_size(sc.max_buffer)
-        .open_with(Cursor::new(image.to_vec()))
+        .open_with(disk)
         .expect("harness: image must open");
-    let mut streams: Vec<Stream<Cursor<Vec<u8>>>> =
+    let mut streams: Vec<Stream<Disk>> =
         sc.handles.iter().map(|p| cf.open_stream(p).expect("harness: handle must open")).collect();
     let init: Vec<(u64, u64)> = streams.iter().map(|s| (s.len(), s.len())).collect();
 
@@ -232,7 +275,7 @@ pub fn run_once(sc: &Scenario, image: &[u8], cfg_key: u64, sink: &SharedSink) {
 
     // writer: the main task keeps its (non-Send) handles and reaches the shared state through
     // their Weak references
-    let states = |cf: &Cf, streams: &[Stream<Cursor<Vec<u8>>>]| -> Vec<(u64, u64)> {
+    let states = |cf: &Cf, streams: &[Stream<Disk>]| -> Vec<(u64, u64)> {
         sc.handles
             .iter()
             .zip(streams.iter())
@@ -285,6 +328,10 @@ pub fn run_once(sc: &Scenario, image: &[u8], cfg_key: u64, sink: &SharedSink) {
                         Ok(()) => "ok".to_string(),
                         Err(e) => format!("err:{:?}", e.kind()),
                     },
+                    Op::FailWrite { after, .. } => {
+                        fail_in.store(after as i64, std::sync::atomic::Ordering::Relaxed);
+                        "armed".to_string()
+                    }
                     Op::FlushInWalk { h } => {
                         // stream I/O from inside an iteration loop on the same thread
                         let mut outcome = "ok".to_string();
